@@ -51,12 +51,13 @@ structure St where
 def B : Nat := Generated.Stages.headerBatchCount
 def Sblocks : Nat := Generated.Stages.resetBlocksBatch
 
-def mkHist (tbl : List (Nat × BlkInfo)) : Hist :=
+def mkHist (tbl : List (Nat × BlkInfo)) (mtb : Nat := 0) : Hist :=
   { ntx := fun h => match tbl.lookup h with | some i => i.ntx | none => 0
     confl := fun h => match tbl.lookup h with | some i => i.pairs | none => []
     eff := fun h => [(h % 8, some h)]
     touched := fun _ => [0]
-    hashOf := fun it => it.length }
+    hashOf := fun it => it.length
+    mtb := mtb }
 
 def insertSorted (x : Nat) : List Nat → List Nat
   | [] => [x]
@@ -107,7 +108,7 @@ def absWrites (w : Writes) : String :=
 /-- the finite key universe a case can touch (heights ≤ top). -/
 def keyUniverse (H : Hist) (top : Nat) : List Key :=
   let hs := List.range (top + 2)
-  [Key.version, Key.curBlock, Key.curHeader, Key.stage, Key.syncPoint, Key.mptLocal]
+  [Key.version, Key.curBlock, Key.curHeader, Key.stage, Key.syncPoint, Key.mptLocal, Key.mptValidated]
   ++ hs.map Key.exec
   ++ hs.flatMap (fun h => (List.range (H.ntx h)).map (Key.tx h))
   ++ (List.range 4).map Key.stub
@@ -136,7 +137,8 @@ def semDiff (keys : List Key) (before after : Db) : String :=
   let dhdr := del.filterMap (fun p => match p with | (Key.exec _, Val.hdr h) => some h | _ => none)
   let root := put.filterMap (fun p => match p.1 with | Key.root h => some h | _ => none)
   let droot := del.filterMap (fun p => match p.1 with | Key.root h => some h | _ => none)
-  let aux := if ch.any (· = Key.mptLocal) then "l" else "-"
+  let aux0 := (if ch.any (· = Key.mptLocal) then "l" else "") ++ (if ch.any (· = Key.mptValidated) then "v" else "")
+  let aux := if aux0 = "" then "-" else aux0
   let anyK (f : Key → Bool) : Bool := ch.any f
   let page := put.filterMap (fun p => match p.1 with | Key.page q => some q | _ => none)
   let dpage := del.filterMap (fun p => match p.1 with | Key.page q => some q | _ => none)
@@ -167,7 +169,7 @@ def gcPrediction (s : St) : String :=
     ts ++ "03" ++ (if till > 0 then "80" else "")
   else "-"
 
-def step (s : St) (ws : List String) : St × String :=
+partial def step (s : St) (ws : List String) : St × String :=
   match ws with
   | ["case", k] => ({}, s!"case {k}")
   | "cfg" :: rest =>
@@ -214,9 +216,25 @@ def step (s : St) (ws : List String) : St × String :=
         ({ s with node := some n', expected := tagged, rdb := n.db }, "ok")
       | .error _ => (s, "err")
     | _, _ => (s, "bad-op")
+  | ["synced", p, hn, mtb] =>
+    -- the light node after the state-sync module has completed headers, MPT and blocks for sync point p
+    match p.toNat?, hn.toNat?, mtb.toNat? with
+    | some pp, some hh, some mt =>
+      let H := mkHist s.tbl mt
+      let n := syncedNode H B pp hh
+      let keys := keyUniverse H (max s.top hh)
+      let hm' : HM := keys.foldl (fun m k => match n.db k with | some v => m.insert k v | none => m) {}
+      let n1 := { n with db := dbOf hm' }
+      match Persist.jump H n1 pp with
+      | .ok (bs, n') =>
+        ({ s with node := some n', expected := bs.map (fun b => (false, b)), rdb := n1.db, hm := hm', top := max s.top hh, mtb := mt }, "ok")
+      | .error _ => (s, "err")
+    | _, _, _ => (s, "bad-op")
+  | "jbatch" :: rest => step s ("rbatch" :: rest)
+  | ["jdone"] => step s ["rdone"]
   | "rbatch" :: rest =>
     let real := String.intercalate " " rest
-    let H := mkHist s.tbl
+    let H := mkHist s.tbl s.mtb
     let keys := keyUniverse H s.top
     -- candidates: the next n expected batches coalesced; with the SeekGC swapped one place earlier
     let tryFrom (e : List (Bool × Batch)) : Option (St) :=
